@@ -1,5 +1,9 @@
+#[cfg(not(koto_verif))]
 pub(crate) use parking_lot::MappedRwLockReadGuard as BorrowImpl;
+#[cfg(not(koto_verif))]
 pub(crate) use parking_lot::MappedRwLockWriteGuard as BorrowMutImpl;
+#[cfg(koto_verif)]
+pub(crate) use verif_guards::{VerifReadGuard as BorrowImpl, VerifWriteGuard as BorrowMutImpl};
 pub(crate) use parking_lot::RwLock as CellImpl;
 pub(crate) use std::sync::Arc as PtrImpl;
 
@@ -35,18 +39,27 @@ pub(crate) fn borrow<T: ?Sized>(cell: &CellImpl<T>) -> BorrowImpl<'_, T> {
     verif_sched::point(verif_sched::READ, addr);
     loop {
         if let Some(g) = cell.try_read() {
-            return parking_lot::RwLockReadGuard::map(g, |x| x);
+            return verif_guards::VerifReadGuard::new(parking_lot::RwLockReadGuard::map(g, |x| x), addr);
         }
         verif_sched::point(verif_sched::BLOCKED_READ, addr);
     }
 }
 
+#[cfg(not(koto_verif))]
 #[inline]
 pub(crate) fn try_borrow<T: ?Sized>(cell: &CellImpl<T>) -> Option<BorrowImpl<'_, T>> {
-    #[cfg(koto_verif)]
-    verif_sched::point(verif_sched::TRY_READ, cell.data_ptr() as *const () as usize);
     cell.try_read()
         .map(|g| parking_lot::RwLockReadGuard::map(g, |x| x))
+}
+
+#[cfg(koto_verif)]
+#[inline]
+pub(crate) fn try_borrow<T: ?Sized>(cell: &CellImpl<T>) -> Option<BorrowImpl<'_, T>> {
+    let addr = cell.data_ptr() as *const () as usize;
+    verif_sched::point(verif_sched::TRY_READ, addr);
+    cell.try_read().map(|g| {
+        verif_guards::VerifReadGuard::new(parking_lot::RwLockReadGuard::map(g, |x| x), addr)
+    })
 }
 
 #[cfg(not(koto_verif))]
@@ -63,20 +76,30 @@ pub(crate) fn borrow_mut<T: ?Sized>(cell: &CellImpl<T>) -> BorrowMutImpl<'_, T> 
     verif_sched::point(verif_sched::WRITE, addr);
     loop {
         if let Some(g) = cell.try_write() {
-            return parking_lot::RwLockWriteGuard::map(g, |x| x);
+            return verif_guards::VerifWriteGuard::new(parking_lot::RwLockWriteGuard::map(g, |x| x), addr);
         }
         verif_sched::point(verif_sched::BLOCKED_WRITE, addr);
     }
 }
 
+#[cfg(not(koto_verif))]
 #[inline]
 pub(crate) fn try_borrow_mut<T: ?Sized>(cell: &CellImpl<T>) -> Option<BorrowMutImpl<'_, T>> {
-    #[cfg(koto_verif)]
-    verif_sched::point(verif_sched::TRY_WRITE, cell.data_ptr() as *const () as usize);
     cell.try_write()
         .map(|g| parking_lot::RwLockWriteGuard::map(g, |x| x))
 }
 
+#[cfg(koto_verif)]
+#[inline]
+pub(crate) fn try_borrow_mut<T: ?Sized>(cell: &CellImpl<T>) -> Option<BorrowMutImpl<'_, T>> {
+    let addr = cell.data_ptr() as *const () as usize;
+    verif_sched::point(verif_sched::TRY_WRITE, addr);
+    cell.try_write().map(|g| {
+        verif_guards::VerifWriteGuard::new(parking_lot::RwLockWriteGuard::map(g, |x| x), addr)
+    })
+}
+
+#[cfg(not(koto_verif))]
 #[inline]
 pub(crate) fn borrowed_filter_map<'a, T: ?Sized, U, F>(
     borrowed: BorrowImpl<'a, T>,
@@ -89,6 +112,23 @@ where
     BorrowImpl::try_map(borrowed, f)
 }
 
+#[cfg(koto_verif)]
+#[inline]
+pub(crate) fn borrowed_filter_map<'a, T: ?Sized, U, F>(
+    borrowed: BorrowImpl<'a, T>,
+    f: F,
+) -> Result<BorrowImpl<'a, U>, BorrowImpl<'a, T>>
+where
+    F: FnOnce(&T) -> Option<&U>,
+    U: ?Sized,
+{
+    let (guard, addr) = borrowed.into_parts();
+    parking_lot::MappedRwLockReadGuard::try_map(guard, f)
+        .map(|g| verif_guards::VerifReadGuard::new_silent(g, addr))
+        .map_err(|g| verif_guards::VerifReadGuard::new_silent(g, addr))
+}
+
+#[cfg(not(koto_verif))]
 #[inline]
 pub(crate) fn borrowed_mut_filter_map<'a, T: ?Sized, U, F>(
     borrowed: BorrowMutImpl<'a, T>,
@@ -99,6 +139,22 @@ where
     U: ?Sized,
 {
     BorrowMutImpl::try_map(borrowed, f)
+}
+
+#[cfg(koto_verif)]
+#[inline]
+pub(crate) fn borrowed_mut_filter_map<'a, T: ?Sized, U, F>(
+    borrowed: BorrowMutImpl<'a, T>,
+    f: F,
+) -> Result<BorrowMutImpl<'a, U>, BorrowMutImpl<'a, T>>
+where
+    F: FnOnce(&mut T) -> Option<&mut U>,
+    U: ?Sized,
+{
+    let (guard, addr) = borrowed.into_parts();
+    parking_lot::MappedRwLockWriteGuard::try_map(guard, f)
+        .map(|g| verif_guards::VerifWriteGuard::new_silent(g, addr))
+        .map_err(|g| verif_guards::VerifWriteGuard::new_silent(g, addr))
 }
 
 /// Verification-only scheduling hook: a process-global callback that is invoked before every
@@ -122,6 +178,14 @@ pub mod verif_sched {
     pub const BLOCKED_READ: u8 = 4;
     /// A blocking write acquisition found the lock held
     pub const BLOCKED_WRITE: u8 = 5;
+    /// A read lock has been acquired (bookkeeping only, not a scheduling point)
+    pub const ACQUIRED_READ: u8 = 6;
+    /// A write lock has been acquired (bookkeeping only, not a scheduling point)
+    pub const ACQUIRED_WRITE: u8 = 7;
+    /// A read lock has been released (bookkeeping only, not a scheduling point)
+    pub const RELEASED_READ: u8 = 8;
+    /// A write lock has been released (bookkeeping only, not a scheduling point)
+    pub const RELEASED_WRITE: u8 = 9;
 
     /// The callback type: `(kind, address of the protected data)`
     pub type Hook = fn(u8, usize);
@@ -140,8 +204,130 @@ pub mod verif_sched {
             // Safety: only ever stored from a valid `Hook` in `set_hook`
             let hook: Hook = unsafe { std::mem::transmute::<usize, Hook>(hook) };
             hook(kind, addr);
-        } else if kind >= BLOCKED_READ {
+        } else if kind == BLOCKED_READ || kind == BLOCKED_WRITE {
             std::thread::yield_now();
+        }
+    }
+}
+
+/// Verification-only guard wrappers that report acquisition and release of a lock to the
+/// scheduling hook, so that a scheduler can know which locks a thread currently holds.
+#[cfg(koto_verif)]
+pub(crate) mod verif_guards {
+    use super::verif_sched;
+    use std::{
+        fmt,
+        mem::ManuallyDrop,
+        ops::{Deref, DerefMut},
+    };
+
+    pub(crate) struct VerifReadGuard<'a, T: ?Sized> {
+        guard: ManuallyDrop<parking_lot::MappedRwLockReadGuard<'a, T>>,
+        addr: usize,
+    }
+
+    impl<'a, T: ?Sized> VerifReadGuard<'a, T> {
+        pub(crate) fn new(guard: parking_lot::MappedRwLockReadGuard<'a, T>, addr: usize) -> Self {
+            verif_sched::point(verif_sched::ACQUIRED_READ, addr);
+            Self::new_silent(guard, addr)
+        }
+
+        // Used when re-wrapping a guard that has already been reported as acquired
+        pub(crate) fn new_silent(
+            guard: parking_lot::MappedRwLockReadGuard<'a, T>,
+            addr: usize,
+        ) -> Self {
+            Self {
+                guard: ManuallyDrop::new(guard),
+                addr,
+            }
+        }
+
+        // Takes the guard out of the wrapper without reporting a release
+        pub(crate) fn into_parts(self) -> (parking_lot::MappedRwLockReadGuard<'a, T>, usize) {
+            let mut this = ManuallyDrop::new(self);
+            // Safety: `this` is never dropped, so the guard is taken exactly once
+            let guard = unsafe { ManuallyDrop::take(&mut this.guard) };
+            (guard, this.addr)
+        }
+    }
+
+    impl<T: ?Sized> Drop for VerifReadGuard<'_, T> {
+        fn drop(&mut self) {
+            // Safety: the guard is only taken here or in `into_parts` (which skips drop)
+            unsafe { ManuallyDrop::drop(&mut self.guard) };
+            verif_sched::point(verif_sched::RELEASED_READ, self.addr);
+        }
+    }
+
+    impl<T: ?Sized> Deref for VerifReadGuard<'_, T> {
+        type Target = T;
+
+        fn deref(&self) -> &T {
+            self.guard.deref()
+        }
+    }
+
+    impl<T: ?Sized + fmt::Display> fmt::Display for VerifReadGuard<'_, T> {
+        fn fmt(&self, f: &mut fmt::Formatter<'_>) -> fmt::Result {
+            self.guard.deref().fmt(f)
+        }
+    }
+
+    pub(crate) struct VerifWriteGuard<'a, T: ?Sized> {
+        guard: ManuallyDrop<parking_lot::MappedRwLockWriteGuard<'a, T>>,
+        addr: usize,
+    }
+
+    impl<'a, T: ?Sized> VerifWriteGuard<'a, T> {
+        pub(crate) fn new(guard: parking_lot::MappedRwLockWriteGuard<'a, T>, addr: usize) -> Self {
+            verif_sched::point(verif_sched::ACQUIRED_WRITE, addr);
+            Self::new_silent(guard, addr)
+        }
+
+        pub(crate) fn new_silent(
+            guard: parking_lot::MappedRwLockWriteGuard<'a, T>,
+            addr: usize,
+        ) -> Self {
+            Self {
+                guard: ManuallyDrop::new(guard),
+                addr,
+            }
+        }
+
+        pub(crate) fn into_parts(self) -> (parking_lot::MappedRwLockWriteGuard<'a, T>, usize) {
+            let mut this = ManuallyDrop::new(self);
+            // Safety: `this` is never dropped, so the guard is taken exactly once
+            let guard = unsafe { ManuallyDrop::take(&mut this.guard) };
+            (guard, this.addr)
+        }
+    }
+
+    impl<T: ?Sized> Drop for VerifWriteGuard<'_, T> {
+        fn drop(&mut self) {
+            // Safety: the guard is only taken here or in `into_parts` (which skips drop)
+            unsafe { ManuallyDrop::drop(&mut self.guard) };
+            verif_sched::point(verif_sched::RELEASED_WRITE, self.addr);
+        }
+    }
+
+    impl<T: ?Sized> Deref for VerifWriteGuard<'_, T> {
+        type Target = T;
+
+        fn deref(&self) -> &T {
+            self.guard.deref()
+        }
+    }
+
+    impl<T: ?Sized> DerefMut for VerifWriteGuard<'_, T> {
+        fn deref_mut(&mut self) -> &mut T {
+            self.guard.deref_mut()
+        }
+    }
+
+    impl<T: ?Sized + fmt::Display> fmt::Display for VerifWriteGuard<'_, T> {
+        fn fmt(&self, f: &mut fmt::Formatter<'_>) -> fmt::Result {
+            self.guard.deref().fmt(f)
         }
     }
 }
